@@ -216,6 +216,16 @@ def run(run):
                 ge["all_nonzero"] = all(nz)
             add(ge, aname.split("(")[0], {"architecture": aname, "case": "gradient_reachability"})
             run.case(("graph", aname), nontrivial=True)
+            # the same reachability question for a larger image (a size-dependent shortcut - checkpointing, tiling - may cut a branch out of the graph)
+            if not aname.startswith("Kurka"):
+                for ghw in ((48,) if quick else (48, 64)):
+                    torch.manual_seed(run.seed + 7)
+                    e3, d3 = mk()
+                    ge3 = graph_event(aname, e3.train(), d3.train(), csi, ghw)
+                    if not ge3["all_nonzero"]:
+                        ge3["all_nonzero"] = all(p.grad is not None for p in e3.parameters())      # exact zeros from dead units are judged at size 16 above
+                    add(ge3, aname.split("(")[0], {"architecture": aname, "case": "gradient_reachability", "size": ghw})
+                    run.case(("graph", aname, ghw), nontrivial=True)
         except Exception as ex:
             run.violate(aname.split("(")[0], "pipeline_backward_raised", {"architecture": aname}, {"error": repr(ex)[:200]})
     from kaira.utils import calculate_num_filters_factor_image
